@@ -18,6 +18,7 @@ PROFILE = {
     "p_retryable": 0.8,
     "max_dur": 24,
     "max_delay_ticks": 48,
+    "attempt_timeout": 0.1,
 }
 
 
@@ -53,6 +54,6 @@ PROP = Property(
     ),
     assumptions=["model and implementation arithmetic are both exact on the k/64 s grid"],
     streams=[
-        Stream("model", check, strategy=C.with_entry(gen.retry_case(PROFILE), C.RETRY_ENTRIES), quick=16000, thorough=400000),
+        Stream("model", check, strategy=C.with_entry(gen.retry_case(PROFILE), C.WIDE_ENTRIES), quick=16000, thorough=400000),
     ],
 )
